@@ -807,6 +807,14 @@ pub fn catch<R>(f: impl FnOnce() -> R) -> Result<R, String> {
 
 thread_local! {
     static LAST_PANIC_LOC: std::cell::RefCell<Option<String>> = const { std::cell::RefCell::new(None) };
+    static PANIC_LOG: std::cell::RefCell<Vec<String>> = const { std::cell::RefCell::new(Vec::new()) };
+}
+
+/// all panics (message @ location) seen on this thread since the last call, including panics that a
+/// runtime swallowed (e.g. inside spawned tokio tasks)
+pub fn take_panics() -> Vec<String> {
+    install_quiet_hook();
+    PANIC_LOG.with(|l| std::mem::take(&mut *l.borrow_mut()))
 }
 
 pub fn install_quiet_hook() {
@@ -814,6 +822,19 @@ pub fn install_quiet_hook() {
     ONCE.call_once(|| {
         std::panic::set_hook(Box::new(|info| {
             let loc = info.location().map(|l| format!("{}:{}", l.file(), l.line())).unwrap_or_default();
+            let msg = if let Some(s) = info.payload().downcast_ref::<&str>() {
+                s.to_string()
+            } else if let Some(s) = info.payload().downcast_ref::<String>() {
+                s.clone()
+            } else {
+                "panic".to_string()
+            };
+            PANIC_LOG.with(|l| {
+                let mut l = l.borrow_mut();
+                if l.len() < 64 {
+                    l.push(format!("{msg} @ {loc}"));
+                }
+            });
             LAST_PANIC_LOC.with(|l| *l.borrow_mut() = Some(loc));
         }));
     });
@@ -822,6 +843,18 @@ pub fn install_quiet_hook() {
 /// Panic location with the /repo prefix stripped: stable across machines, used in signatures.
 pub fn panic_site(msg: &str) -> String {
     let loc = msg.rsplit(" @ ").next().unwrap_or("");
-    let loc = loc.trim_start_matches("/repo/");
+    if let Some(i) = loc.find("/crates/emmylua") {
+        return loc[i + 1..].to_string();
+    }
+    if let Some(i) = loc.find("/crates/schema_to_emmylua") {
+        return loc[i + 1..].to_string();
+    }
+    if let Some(i) = loc.find("/registry/src/") {
+        // <registry>/<hash>/<crate-version>/src/...
+        let rest = &loc[i + "/registry/src/".len()..];
+        if let Some(j) = rest.find('/') {
+            return rest[j + 1..].to_string();
+        }
+    }
     loc.to_string()
 }
